@@ -771,15 +771,22 @@ func (run *haRun) synchronise() {
 }
 
 // tailTick: benign scheduler plus the catch-up service for nodes that hold a certificate without the block.
-func (run *haRun) tailTick() {
-	cl := run.cl
-	for i, n := range cl.nodes {
-		nr := n.ledger.NextRound()
-		if nr > run.syncRound {
+func (run *haRun) noteTailCommits() {
+	for i, n := range run.cl.nodes {
+		if n.ledger.NextRound() > run.syncRound {
 			if _, ok := run.tailCommitAt[i]; !ok {
-				run.tailCommitAt[i] = cl.Now()
+				run.tailCommitAt[i] = run.cl.Now()
 			}
 		}
+	}
+}
+
+func (run *haRun) tailTick() {
+	cl := run.cl
+	defer run.noteTailCommits()
+	run.noteTailCommits()
+	for i, n := range cl.nodes {
+		nr := n.ledger.NextRound()
 		n.ledger.mu.Lock()
 		_, wants := n.ledger.want[nr]
 		n.ledger.mu.Unlock()
